@@ -331,6 +331,12 @@ class RealBackend(object):
         self.hash_vals = pr.get("hashes", {})
         self.nhash = 0
         self.carried = None
+        self.probe_rate = spec.get("probe_rate", 0)
+        self.probe_rng = None
+        if self.probe_rate:
+            import random as _r
+            self.probe_rng = _r.Random(spec.get("probe_seed", 0))
+        self.misc_futures = []
         self.flush_hook = None
         self.root = None
         self.root_exc = None
@@ -585,13 +591,19 @@ class RealBackend(object):
         it.done_at = n
 
     def const(self, inst, v):
-        return A.ConstFuture(v)
+        f = A.ConstFuture(v)
+        if self.probe_rng is not None:
+            self.misc_futures.append(f)
+        return f
 
     def errfut(self, inst, tok):
         e = SimError(tok)
         self.errors[tok] = e
         self.fired("errfut")
-        return A.ErrorFuture(e)
+        f = A.ErrorFuture(e)
+        if self.probe_rng is not None:
+            self.misc_futures.append(f)
+        return f
 
     def lazy(self, inst, mode, tok):
         B = self
@@ -609,7 +621,10 @@ class RealBackend(object):
             B.errors[tok] = e
             raise e
 
-        return A.Future(provider)
+        f = A.Future(provider)
+        if self.probe_rng is not None:
+            self.misc_futures.append(f)
+        return f
 
     def result(self, val):
         A.result(val)
@@ -618,6 +633,56 @@ class RealBackend(object):
     def _enter_body(self, inst):
         self.chain.append(inst)
         inst.nstep += 1
+        if self.probe_rng is not None and self.probe_rng.random() < self.probe_rate:
+            self._probe_all("step of %s" % inst.token)
+
+    def _probe_all(self, where):
+        """C18(c): str / repr / dump of every live asynq object, in whatever state it is in now."""
+        objs = []
+        for inst in self.insts.values():
+            if inst.task is not None:
+                objs.append(("task %s" % inst.token, inst.task))
+        seen_b = set()
+        for tok, it in self.items.items():
+            objs.append(("item %s" % tok, it))
+            if id(it.batch) not in seen_b:
+                seen_b.add(id(it.batch))
+                objs.append(("batch %s" % it.batch.bid, it.batch))
+        for b in self.current:
+            if b is not None and id(b) not in seen_b:
+                seen_b.add(id(b))
+                objs.append(("batch %s" % b.bid, b))
+        for i, f in enumerate(self.misc_futures):
+            objs.append(("future #%d" % i, f))
+        objs.append(("scheduler", A.scheduler.get_scheduler()))
+        for i, sv in enumerate(self.svs):
+            objs.append(("scoped value %d" % i, sv))
+        for cm in self.live_ctx:
+            objs.append(("context %s" % cm.cid, cm))
+        self.probes["objects_printed"] += len(objs)
+        self.probes["probe_points"] += 1
+        for name, o in objs:
+            for fn_name, fn in (("str", str), ("repr", repr), ("dump", None)):
+                try:
+                    if fn is None:
+                        d = getattr(o, "dump", None)
+                        if d is not None:
+                            d()
+                    else:
+                        r = fn(o)
+                        if not isinstance(r, str):
+                            self.viol("C18", "total", "%s(%s) at %s returned %r" % (fn_name, name, where, type(r)))
+                except HarnessError:
+                    raise
+                except BaseException as e:
+                    self.viol("C18", "total", "%s() of %s raised %s: %s (at %s)" % (fn_name, name, type(e).__name__, str(e)[:100], where))
+        for tag, e in list(self.errors.items())[:6]:
+            try:
+                r = _adebug.format_error(e)
+                if not isinstance(r, str):
+                    self.viol("C18", "format-error", "format_error(%s) returned %r" % (tag, type(r)))
+            except BaseException as ex:
+                self.viol("C18", "format-error", "format_error(%s) raised %s: %s" % (tag, type(ex).__name__, str(ex)[:100]))
 
     def _leave_body(self, inst):
         if self.chain and self.chain[-1] is inst:
@@ -1033,6 +1098,8 @@ class RealBackend(object):
             self.probes["flush_in_nested_wait"] += 1
         if self.flush_hook is not None:
             self.flush_hook(batch)
+        if self.probe_rng is not None and self.probe_rng.random() < self.probe_rate:
+            self._probe_all("flush body of %s" % batch.bid)
         plan = self.flush_faults.get("%d#%d" % (kind, ordn))
         items = list(batch.items)
         for idx, it in enumerate(items):
@@ -1201,9 +1268,12 @@ class RealBackend(object):
         self.root_error = None
         if self.root is not None and self.root.task is not None and self.root.task.is_computed():
             self.root_error = self.root.task._error
+        if self.probe_rng is not None:
+            self._probe_all("end of computation")
         self.live_ctx = []
         self.before_after = []
         self.prio_log = []
+        self.misc_futures = []
         for inst in self.insts.values():
             inst.task = None
             inst.vars = []
